@@ -5,16 +5,60 @@
    address), the real chain indexer building the bloom-bits index (section size 8/16/32, 1-4 sections, 256 confirmations),
    queries through filters.New(...).Logs and PublicFilterAPI.GetLogs with full / partial / no index.
 3. TLC: LogFilterTrace.tla computes BruteForce over the recorded canonical receipts and compares; checks every header and
-   receipt bloom against independent keccak bit positions."""
+   receipt bloom against independent keccak bit positions.
+4. Index progress under reorganisations: ChainIndexer.tla (known / stored sections, section heads, processing interleaved with chain
+   growth and reorganisations): stored sections stay canonical as long as no reorganisation is deeper than the confirmations (and
+   with deep ones only with the last-head check later upstream versions have; the as-is config with deep reorganisations must fail).
+   Behaviours simulated by TLC are replayed step by step on the real core.ChainIndexer through step hooks; IndexerTrace.tla takes
+   the same steps in the model and compares the projection after every step."""
 import os, re, json
 from lib import vlib
 FAM = ["logfilter"]
+
+def indexer_part(ctx, q):
+    for tag in ("c1", "c3"):
+        r = vlib.run_tlc(ctx, ["indexer"], "IndexerGen.tla", "IndexerGen_%s.cfg" % tag, workers=1, timeout=1800, deadlock=False,
+                         simulate=["-simulate", "num=%d" % (120 if q else 4000), "-depth", "30", "-seed", str(ctx.seed)], name="gen_idx_" + tag)
+        scripts = []
+        for line in r.out.splitlines():
+            if line.startswith('<<"GEN", "'):
+                scripts.append(json.loads(line.strip()[len('<<"GEN", "'):-len('">>')].replace('\\"', '"').replace('\\\\', '\\')))
+        if not scripts:
+            raise vlib.Infra("IndexerGen produced no behaviours:\n" + r.out[-2000:])
+        sp = os.path.join(ctx.work, "idx_scripts_%s.ndjson" % tag)
+        with open(sp, "w") as f:
+            for sc in scripts:
+                f.write(json.dumps(sc) + "\n")
+        tr = os.path.join(ctx.work, "indexer_%s.ndjson" % tag)
+        rc, out = vlib.go_test(ctx, "core", "TestVerifIndexer$", env={"VERIF_OUT": tr, "VERIF_SCRIPT": sp}, files=["indexer_test.go"], timeout=3000)
+        m = re.search(r"VERIF-STAT scripts=(\d+) events=(\d+) desyncs=(\d+)", out)
+        if rc != 0 or not m:
+            raise vlib.Infra("indexer driver failed (rc=%d):\n%s" % (rc, out[-3000:]))
+        v = vlib.validate_trace(ctx, ["indexer"], "IndexerTrace.tla", "IndexerTrace_%s.cfg" % tag, tr, name="trace_idx_" + tag, timeout=3000)
+        evs = vlib.read_ndjson(tr)
+        ctx.evaluations += len(evs)
+        for e in evs:
+            ctx.signatures.add(("indexer", tag, e["op"], e.get("known"), e.get("stored"), tuple(e.get("fresh", [])), e.get("deep")))
+        ctx.notes["indexer_stale_sections_after_deep_reorg_" + tag] = sum(1 for e in evs if False in e.get("fresh", []))
+        if v.accepted:
+            ctx.traces_validated += int(m.group(1))
+        else:
+            line = v.line or 0
+            ev = evs[line] if 0 <= line < len(evs) else {}
+            meta = os.path.join(ctx.work, "meta.json")
+            json.dump({"seed": ctx.seed, "tier": ctx.tier, "line": line, "invariant": v.violated, "part": "indexer " + tag}, open(meta, "w"))
+            ctx.violation("IndexerTrace (%s) %s after trace line %s: the real ChainIndexer and ChainIndexer.tla disagree, or a stored section is not canonical "
+                          "without a deep reorganisation; next recorded step: %s" % (tag, v.violated, line, json.dumps(ev)[:400]), ctx.save_replay("indexer", [tr, sp, meta]))
 
 def run(ctx):
     q = ctx.quick
     if not ctx.replay:
         vlib.model_check(ctx, FAM, "LogFilterMC.tla", "LogFilterMC.cfg", timeout=1800)
+        vlib.model_check(ctx, ["indexer"], "ChainIndexer.tla", "ChainIndexer_shallow.cfg", timeout=1800, deadlock=False)
+        vlib.model_check(ctx, ["indexer"], "ChainIndexer.tla", "ChainIndexer_checked.cfg", timeout=1800, deadlock=False)
+        vlib.model_check(ctx, ["indexer"], "ChainIndexer.tla", "ChainIndexer_asis.cfg", expect_violation="StoredIsCanonical", timeout=600, deadlock=False)
         ctx.exhaustive = True
+    indexer_part(ctx, q)
     trace = os.path.join(ctx.work, "logfilter.ndjson")
     rc, out = vlib.go_test(ctx, "aqua/filters", "TestVerifLogFilter$", env={"VERIF_OUT": trace, "VERIF_CHAINS": 6 if q else 60, "VERIF_REALIDX": 1 if q else 4, "VERIF_QUERIES": 40 if q else 80}, timeout=6000)
     m = re.search(r"VERIF-STAT chains=(\d+) queries=(\d+) events=(\d+)", out)
@@ -39,7 +83,8 @@ def run(ctx):
         d = {k: ev.get(k) for k in ("e", "chain", "mode", "via", "reported", "from", "to", "addrs", "topics", "err")}
         d["results"] = [(r["n"], r["k"]) for r in ev.get("result", [])][:20]
         ctx.violation("LogFilterTrace invariant %s false at trace line %s: %s" % (v.violated, line, json.dumps(d)[:900]), ctx.save_replay("trace", [trace, meta]))
-    ctx.assumptions = ["bit positions of items come from golang.org/x/crypto/sha3 (independent of the repository's crypto package)",
+    ctx.assumptions = ["chain indexer: chain operations are performed by the driver (headers and canonical hashes written, then newHead(...) called as the event loop does); the update loop is stepped through four hook sites (build tag verif)",
+                       "bit positions of items come from golang.org/x/crypto/sha3 (independent of the repository's crypto package)",
                        "the backend's ServiceFilter is a transcription of aqua.startBloomHandlers with the seeded section size (the original hard-wires 4096-block sections)",
                        "chains are written with core.WriteBlock / WriteBlockReceipts as the repository's filter tests do; the index is built by aqua.NewBloomIndexer / core.ChainIndexer"]
     vlib.write_evidence(ctx, rule="TLC: 239,580 (chain, criteria, range) combinations x section sizes x index progress in the model; Go: 4 (quick) / 40 (thorough) chains of 270-420 blocks x "
